@@ -456,15 +456,17 @@ def assemble(unit_file, canary=False, mutate_spec=None):
                 sig_text = src[sig_start:it["paren_end"]].decode().lstrip()
                 assoc = None
                 if "selfassoc" in flags:
-                    # resolve `Self::Output` with the impl block's own `type Output = X;` (documented mechanical substitution)
+                    # resolve `Self::Output` / `Self::Item` with the impl block's own `type X = Y;` (documented mechanical substitution)
                     implkey_ = key.rsplit("::", 1)[0]
+                    assoc = {}
                     for it2 in ex[relfile]["items"]:
-                        if it2["kind"] == "impl_type" and it2["key"] == implkey_ + "::Output":
+                        if it2["kind"] == "impl_type" and it2["key"].startswith(implkey_ + "::"):
                             t_ = src[it2["span"][0]:it2["span"][1]].decode()
-                            assoc = t_.split("=", 1)[1].strip().rstrip(";").strip()
-                    if assoc is None:
-                        raise Infra("lost anchor: no `type Output` in impl %s" % implkey_)
-                    sig_text = sig_text.replace("Self::Output", assoc)
+                            assoc["Self::" + it2["key"].rsplit("::", 1)[1]] = t_.split("=", 1)[1].strip().rstrip(";").strip()
+                    if not assoc:
+                        raise Infra("lost anchor: no associated type in impl %s" % implkey_)
+                    for k_, v_ in assoc.items():
+                        sig_text = sig_text.replace(k_, v_)
                 if "external" in flags:
                     asm.emit("    #[verifier::external_body]\n", {"kind": "gen"})
                 if is_copy:
@@ -472,8 +474,8 @@ def assemble(unit_file, canary=False, mutate_spec=None):
                 asm.emit("    " + sig_text, {"kind": "repo-sig", "file": relfile, "line0": it["span"][2], "fn": fninfo})
                 if it["ret"] is not None:
                     ty = src[it["ret"]["ty"][0]:it["ret"]["ty"][1]].decode()
-                    if assoc is not None:
-                        ty = ty.replace("Self::Output", assoc)
+                    for k_, v_ in (assoc or {}).items():
+                        ty = ty.replace(k_, v_)
                     if retname == "-":
                         asm.emit(" -> %s" % ty, {"kind": "gen"})
                     else:
